@@ -59,6 +59,18 @@ func c13GraphModel() *openfgav1.AuthorizationModel {
 	}})
 }
 
+var c13FailingMemo = map[*openfgav1.AuthorizationModel]*openfgav1.AuthorizationModel{}
+
+// c13Failing is the shared model with an unprintable condition that is reached last (built once per shared model, read-only).
+func c13Failing(shared *openfgav1.AuthorizationModel) *openfgav1.AuthorizationModel {
+	if f, ok := c13FailingMemo[shared]; ok {
+		return f
+	}
+	f := c14FailingVariants(shared)[4]
+	c13FailingMemo[shared] = f
+	return f
+}
+
 // c13Op is one public call with its observation rendered as a string.
 type c13Op struct {
 	Name string
@@ -74,6 +86,7 @@ func errStr(err error) string {
 
 // c13Ops builds the call alphabet over the given shared inputs.
 func c13Ops(shared, graphM *openfgav1.AuthorizationModel) []c13Op {
+	c13Failing(shared) // built before any thread runs
 	parse := func(i int) c13Op {
 		return c13Op{fmt.Sprintf("parse-doc%d", i), func() string {
 			m, err := transformer.TransformDSLToProto(c13Docs[i])
@@ -102,6 +115,11 @@ func c13Ops(shared, graphM *openfgav1.AuthorizationModel) []c13Op {
 			return s + errStr(err)
 		}},
 		{"print-shared-graph-model", func() string { s, err := transformer.TransformJSONProtoToDSL(graphM); return s + errStr(err) }},
+		{"print-failing-variant-of-shared-modular", func() string {
+			// a call that fails part-way (after the valid conditions were rendered)
+			s, err := transformer.TransformJSONProtoToDSL(c13Failing(shared), transformer.WithIncludeSourceInformation(true))
+			return s + errStr(err)
+		}},
 		{"merge", func() string {
 			m, err := transformer.TransformModuleFilesToModel([]transformer.ModuleFile{
 				{Name: "a.fga", Contents: "module ma\n\ntype user\n\ntype doc\n  relations\n    define r1: [user]\n"},
@@ -308,6 +326,9 @@ func c13History(ctx *core.Ctx) {
 		}})
 	}
 	for _, o := range c13Ops(shared, graphM)[6:] {
+		if o.Name == "print-failing-variant-of-shared-modular" {
+			continue // the history alphabet has its own failing calls below
+		}
 		alphabet = append(alphabet, op{o.Name, o.F})
 	}
 	// calls that FAIL part-way: whatever they leave behind must not show in later calls
@@ -707,7 +728,7 @@ func init() {
 		ID: "C13",
 		Rule: "(1) inputs untouched: every full model of the generator families, the modular models and every 97th graph model, with the type definitions reversed, through printer (both options), both graph builders and the utils: strict snapshot before = after; module file slices through the merger. " +
 			"(2) history independence, explicit-state search: state = contents of the process-global ANTLR caches (serialised DFAs), transitions = the real parse entry points on 8 documents (valid, invalid, modular) plus printer (also on two variants of the shared model that fail part-way), merger, both graph builders and validators, plus one weighted-graph builder value that lives as long as the process, given three models whose tuple-to-usersets resolve against different types (its inputs so far are part of the state key); successor = cache reset + replay of the history + one call; breadth first to depth 3 (quick) / 4 (thorough), no state merging below depth 3; invariant on every transition: output equals the cold output. " +
-			"(3) interleavings: pairs of 12 calls (quick: every call with itself and with three hub calls; thorough: every pair) (parses, modular parse, DSL->JSON, printing shared models, merge, both graph builders on a shared model, validators) as two controlled threads with caches reset, scheduling points at every statement of the repository's packages and every antlr lock operation, preemption bound 1 (thorough: bound 2 on short pairs, three threads bound 1): each result equals the sequential result, shared inputs unchanged, no deadlock, no panic. " +
+			"(3) interleavings: pairs of 13 calls (quick: every call with itself and with three hub calls; thorough: every pair) (parses, modular parse, DSL->JSON, printing shared models, a print that fails part-way, merge, both graph builders on a shared model, validators) as two controlled threads with caches reset, scheduling points at every statement of the repository's packages and every antlr lock operation, preemption bound 1 (thorough: bound 2 on short pairs, three threads bound 1): each result equals the sequential result, shared inputs unchanged, no deadlock, no panic. " +
 			"(4) the same bodies free-running on real threads in a separate -race build: no report with a repository frame. states = cache states + schedule classes, non-trivial = distinct models / call pairs",
 		Assume: []string{
 			"the cooperative scheduler sees scheduling points at statement granularity in the repository's packages and at lock operations in the antlr runtime; unsynchronised accesses below that are the race detector's part",
